@@ -430,15 +430,24 @@ class _Exporter:
                 continue
             if isinstance(value, np.ndarray):
                 onnx_dtype = at.t.data_type
+
+                def values_repr(values) -> str:
+                    text = repr(values)
+                    if value.dtype.kind in "fc":
+                        # Only floating point values print as nan / inf (the elements of a
+                        # string tensor may contain these letters)
+                        text = text.replace("nan", "np.nan").replace("inf", "np.inf")
+                    return text
+
                 if len(value.shape) == 0:
                     text = (
                         f'make_tensor("value", {onnx_dtype}, dims=[], '
-                        f"vals=[{repr(value.tolist()).replace('nan', 'np.nan').replace('inf', 'np.inf')}])"
+                        f"vals=[{values_repr(value.tolist())}])"
                     )
                 else:
                     text = (
                         f'make_tensor("value", {onnx_dtype}, dims={list(value.shape)!r}, '
-                        f"vals={repr(value.ravel().tolist()).replace('nan', 'np.nan').replace('inf', 'np.inf')})"
+                        f"vals={values_repr(value.ravel().tolist())})"
                     )
                 attributes.append((at.name, text))
                 continue
